@@ -27,7 +27,7 @@ Next ==
                /\ Expect(e.conv = "cp437" /\ e.code # 0 => e.uni = Cp437ToUnicode[e.code + 1], "cp437-table", l, [code |-> e.code, uni |-> e.uni])
           [] e.ev = "typed" ->
                /\ Bump(7)
-               /\ Check(Alnum(e.ch) => e.back = e.ch, "C18", "TypedRoundTrip", l, [conv |-> e.conv, ch |-> e.ch, code |-> e.code, back |-> e.back])
+               /\ Check(Alnum(e.ch) => e.back = e.ch, "C18", "TypedRoundTrip", l, [conv |-> e.conv, page |-> e.page, ch |-> e.ch, code |-> e.code, back |-> e.back])
           [] OTHER -> Viol("TOOL", "unknown-event", l, e.ev)
   /\ l' = l + 1
 Spec == Init /\ [][Next]_vars
